@@ -451,10 +451,8 @@ class GuardAnalysis:
     def _bind(self, txt, value, f: Facts, pre: Facts):
         """Facts from ``txt = value``."""
         if any(_mentions(U(n), txt) for n in ast.walk(value) if isinstance(n, (ast.Name, ast.Attribute))):
-            # self-referential: ``x = x or E`` etc. handled by special cases
-            if isinstance(value, ast.IfExp):
-                pass
-            else:
+            # self-referential: only the conditional form ``x = E if x is None else x`` is understood
+            if not isinstance(value, ast.IfExp):
                 return
         v = Lin(0, {txt: 1})
         e = lin(value, self.env)
@@ -466,54 +464,36 @@ class GuardAnalysis:
             f.add(("none", txt))
             return
         if isinstance(value, ast.IfExp):
-            # x = A if c else B : facts common to both arms
-            fa = pre.copy()
-            for x in facts_if(value.test, True, self.env):
-                fa.add(x)
-            fb = pre.copy()
-            for x in facts_if(value.test, False, self.env):
-                fb.add(x)
-            outs = []
-            for arm, ff in ((value.body, fa), (value.orelse, fb)):
-                al = lin(arm, self.env)
-                arm_facts = Facts()
-                if al is not None:
-                    # substitute: every fact about arm expr symbol holds for txt too
-                    arm_facts.add(v - al)
-                    arm_facts.add(al - v)
-                    # derive v-facts from ff by eliminating: for each lin fact g in ff,
-                    # if g + (v - al) or similar ... keep simple: transfer bounds on `al` to v
-                    for g in ff.lins():
-                        # if g = k*(al) + rest, we cannot generally substitute; handle the common
-                        # case where ``al`` is a single symbol
-                        if len(al.t) == 1 and al.c == 0:
-                            s = next(iter(al.t))
-                            if s in g.t and al.t[s] == 1 and not _mentions(s, txt):
-                                arm_facts.add(g.subst(s, v))
-                    if al.is_const():
-                        pass
-                elif isinstance(arm, ast.Constant) and arm.value is None:
-                    arm_facts.add(("none", txt))
-                outs.append(arm_facts)
-            # close each arm's facts under one-step combination with its equalities is overkill;
-            # instead test candidate facts from either arm for entailment in both arms' contexts
-            cands = list(outs[0].lins()) + list(outs[1].lins())
+            # x = A if c else B : keep the facts about x that hold in both arms
             ctxs = []
-            for arm_facts, ff in zip(outs, (fa, fb)):
-                c = ff.copy()
-                for x in arm_facts.d.values():
+            arms = ((value.body, True), (value.orelse, False))
+            for arm, truth in arms:
+                c = pre.copy()
+                for x in facts_if(value.test, truth, self.env):
                     c.add(x)
+                if not (isinstance(arm, (ast.Name, ast.Attribute)) and U(arm) == txt):
+                    # the new value is not the old one: facts about the old value do not carry over
+                    c.kill(txt)
+                    al = lin(arm, self.env)
+                    if al is not None and txt not in al.syms():
+                        c.add(v - al)
+                        c.add(al - v)
+                    elif isinstance(arm, ast.Constant) and arm.value is None:
+                        c.add(("none", txt))
+                    if _arm_not_none(arm) or (al is not None):
+                        c.add(("notnone", txt))
                 ctxs.append(c)
-            # also try simple bound candidates v >= k / v <= k+sym from the context facts
+            cands = []
             for c in ctxs:
                 for g in c.lins():
                     if txt in g.t:
                         cands.append(g)
             for g in cands:
-                if txt in g.t and all(c.entails(g) for c in ctxs):
+                if all(c.entails(g) for c in ctxs):
                     f.add(g)
-            if all(("notnone", txt) in c.d or _arm_not_none(arm) for c, arm in zip(ctxs, (value.body, value.orelse))):
-                f.add(("notnone", txt))
+            for tag in ("notnone", "none"):
+                if all((tag, txt) in c.d for c in ctxs):
+                    f.add((tag, txt))
             return
         if isinstance(value, ast.Subscript) and isinstance(value.slice, ast.Slice):
             # h = d[:k]  => len(h) <= k ; len(h) <= len(d); and len(d) >= 1 => len(h) >= 1 (k >= 1)
